@@ -68,9 +68,13 @@ impl MDBShardFile {
 
             hashed_write = HashedWrite::new(out_file);
 
+            #[cfg(xet_verif)]
+            utils::verif::point("shard_write_out:temp_created");
             std::io::copy(reader, &mut hashed_write)?;
             hashed_write.flush()?;
         }
+        #[cfg(xet_verif)]
+        utils::verif::point("shard_write_out:temp_written");
 
         // Get the hash
         let shard_hash = hashed_write.hash();
@@ -80,6 +84,8 @@ impl MDBShardFile {
         std::fs::rename(&temp_file_name, &full_file_name)?;
         #[cfg(xet_verif)]
         utils::verif::stamp_mtime(&full_file_name);
+        #[cfg(xet_verif)]
+        utils::verif::point("shard_write_out:renamed");
 
         Self::load_from_hash_and_path(shard_hash, &full_file_name)
     }
